@@ -83,6 +83,17 @@ partial def handle (key : Keymap.Key) (s : S) (ev : Keymap.Event) : S :=
       if s.multi then
         { s with selected := s.listed.foldl (fun acc i => if acc.contains i then acc.filter (· != i) else insertAsc i acc) s.selected }
       else s
+    else if ctorIs c "EvActAppendAndSelect" then
+      -- act_append_and_select: nothing with an empty query; otherwise the query becomes a new item at the end of the
+      -- input, is selected (multi-selection only: act_select_raw_item ignores it in single mode), and the heart beat
+      -- that follows lets the matcher list it (it matches the query it was made from; the generator keeps queries to letters)
+      let q := s.ed.fz.line
+      if q.isEmpty then s else
+      let i := s.items.length
+      let s1 := { s with items := s.items ++ [q], selected := if s.multi then insertAsc i s.selected else s.selected }
+      if Engine.matchQuery cfg q q then
+        { s1 with listed := s1.listed ++ [i], cur := SelCursor.step s1.cur (.append 1) }
+      else s1
     else if ctorIs c "EvActIgnore" then s
     else { s with unsupported := some (String.ofList c) }
   | .int c n =>
@@ -140,7 +151,7 @@ def answer (case impl : String) : String :=
         | none => "panic\tbad:model-predicts-a-panic-in-accept"
         | some o =>
           let b : Accept.BinOpts := { printQuery := has "pq", printCmd := has "pc", expect := expect.isSome }
-          let r := Accept.binOutput o b (fun i => String.ofList (its.getD i []))
+          let r := Accept.binOutput o b (fun i => String.ofList (s.items.getD i []))
           let out := String.join (r.1.map (· ++ "\n"))
           let model := s!"rc={r.2} out={hexOf out}"
           model ++ "\t" ++ (if impl == model then "ok" else "bad:binary-output-differs-from-accept-model")
